@@ -110,6 +110,10 @@ func (batch *Batch) close() (err error) {
 			var kafkaError Error
 			if !errors.As(err, &kafkaError) && !errors.Is(err, io.ErrShortBuffer) {
 				conn.Close()
+				// the read lock is still held: what is left of the response in
+				// the read buffer must not be served to the callers waiting for
+				// their own responses (see abortRead)
+				conn.rbuf.Discard(conn.rbuf.Buffered())
 			}
 		}
 	}
